@@ -742,6 +742,12 @@ static Json gen_deflate(Rng &r0, const std::string &focus, int tier)
                 o.push(0).push(feed).push(out).push(flush).push(eosf).push(flags);
                 ops.push(o);
         }
+        if (!starve && rio.chance(1, 8)) { // exactly one split of the input and one of the output
+                ops = Json::arr();
+                Json o = Json::arr();
+                o.push(0).push((uint32_t) rio.below(n + 1)).push(rio.chance(1, 2) ? big + big / 4 + 1024 : (uint32_t) rio.logsize(big + 64)).push(rio.chance(1, 4) ? (int) (1 + rio.below(2)) : 0).push((int) rio.below(2)).push(0);
+                ops.push(o);
+        }
         // "big chunk" sessions: hundreds of KiB of poorly compressible data in a few large chunks, so that blocks start in
         // one caller buffer and close in the next while the codec compresses straight from the caller's memory
         bool bigchunk = !starve && r.chance(1, 8);
